@@ -90,7 +90,8 @@ def run_cases(prop: str, cases: list[dict], *, timeout: float = 1500.0, boundsch
     batches: list[list[tuple[int, dict]]] = [[] for _ in range(nb)]
     for i, c in enumerate(cases):
         batches[i % nb].append((i, c))
-    base = Path(os.environ.get("VERIF_WORK", tempfile.gettempdir()))
+    shm = "/dev/shm" if os.access("/dev/shm", os.W_OK) else tempfile.gettempdir()  # tmpfs: nc.sync() is cheap there
+    base = Path(os.environ.get("VERIF_WORK", shm))
     workroot = Path(tempfile.mkdtemp(prefix=f"vmon_{prop}_", dir=base))
     results: dict[int, dict] = {}
     t0 = time.time()
